@@ -268,10 +268,11 @@ def run_transform(R, name, B, L):
 TRANSFORM_ENVS = ["Knapsack", "Maze@3x3", "Snake", "Cleaner@3x3x1", "GraphColoring", "TSP", "SlidingTilePuzzle", "Connector", "Minesweeper", "CVRP",
                   "Tetris", "RubiksCube", "LevelBasedForaging", "JobShop", "Sudoku"]
 # minutes each (large batched encodings): thorough tier only
-# RobotWarehouse is NOT in the list: its reset/step draw with jax.random.choice(replace=False) on a batched operand, for which the
-# permutation stub is not lane-consistent under vmap (first end-to-end run of this tier: 8 models that do not replay); its vmap/scan
-# equivalence is therefore not claimed (the IR-level facts and the concrete eager/jit/instance comparisons of run_ir still are)
-THOROUGH_EXTRA = ["FlatPack", "Sokoban", "MultiCVRP", "Game2048", "BinPack@csv"]
+# RobotWarehouse was dropped after the first end-to-end run of this tier (8 models that did not replay): the key its step carries through
+# `lax.scan` + `lax.cond` is an ite term, and the random stubs memoised on the identity of that whole term, so the batched and the per-lane
+# encoding drew differently.  The stubs now case-split such keys (engine/jx2smt._key_cases, DESIGN 8.9): all its state/timestep leaves are
+# proved equal except the (2, 66) agents_view under vmap, which is `unknown` at the quick time-out - thorough tier.
+THOROUGH_EXTRA = ["FlatPack", "Sokoban", "MultiCVRP", "Game2048", "BinPack@csv", "RobotWarehouse"]
 JOBTIMEOUT = {"quick": 600, "thorough": 2400}
 
 
